@@ -372,6 +372,10 @@ pub enum C14Case {
         /// Some(x): step to x instead of base + delta (steps whose size is not an f32, e.g. -3e38 -> 3e38)
         #[serde(default)]
         target: Option<f32>,
+        /// > 0: the level `base` is reached under the fastest response (set_time(0), 8 + off_first samples of `base`),
+        /// then set_time(t) is called (t >= 0.06 s, so it must be honoured) and the step follows at once
+        #[serde(default)]
+        off_first: u8,
     },
     /// t < 2/fs: fastest response
     Fast {
@@ -399,15 +403,35 @@ fn settle_at(g: &mut GlideProcessor, res: &mut Res, alpha: f64, base: f32, sampl
 
 pub fn run_c14(case: &C14Case, stats: &mut Stats) -> Result<CaseInfo, Failure> {
     match case {
-        C14Case::Step { fs, t, base, delta, target } => {
+        C14Case::Step { fs, t, base, delta, target, off_first } => {
             let fsd = *fs as f64;
             let n = *t as f64 * fsd;
-            let mut g = processor_with_time(*fs, *t);
             let te = (*t as f64).min(10.0);
             let alpha = alpha_lb(te, fsd);
             let mut res = Res::new();
             let neff = te * fsd;
-            let y0 = if *base != 0.0 { settle_at(&mut g, &mut res, alpha, *base, (3.0 * neff).ceil() as u64 + 8) } else { 0.0 };
+            let off = *off_first > 0 && *t >= 0.06 && *base != 0.0;
+            let mut g = if off { processor_with_time(*fs, 0.0) } else { processor_with_time(*fs, *t) };
+            let y0 = if off {
+                // the level is reached with the glide switched off (statement: settled within 8 samples), then the
+                // glide time is selected and the step follows immediately
+                let mut y = 0.0f32;
+                for _ in 0..(8 + *off_first as u32) {
+                    y = g.process(*base);
+                }
+                if (y as f64 - *base as f64).abs() > 1e-6 * (*base as f64).abs() {
+                    // the fastest response has its own clause (Fast cases); here it is only the way to the level
+                    stats.count("off_first_not_settled_skipped", 1);
+                    return Ok(CaseInfo { nontrivial: false });
+                }
+                g.set_time(*t);
+                stats.count("label.step_right_after_fastest_response", 1);
+                y
+            } else if *base != 0.0 {
+                settle_at(&mut g, &mut res, alpha, *base, (3.0 * neff).ceil() as u64 + 8)
+            } else {
+                0.0
+            };
             let target = target.unwrap_or(*base + *delta);
             if (target as f64 - *base as f64).abs() > 1e30 {
                 stats.count("label.huge_step", 1);
